@@ -66,6 +66,11 @@ CLAIMED = {
          "TLC decides the invariants for all trees of <= MaxKids metadata children x <= MaxTail top-level boxes x 64-bit form x lie x XMP consumption; for well-formed trees the real reader must stand at the next top-level box after every call and hand each callback exactly payload(T, box) with the directory type of the box; for EVERY recorded execution (~25k traces, 1M events per quick run) the position never passes the declared end of any open box and every successful top-level call ends at the end of its box.",
          "Trusted: TLC, the tree writer (gen/bmfftree.go), the isobmff hooks (add-only one-line events). Boxes shorter than 16 bytes, HEIF item paths and resynchronisation after a lie are judged by the open acceptor only. TLC integers are 32 bit: sizes >= 2^29 are clamped by the harness.",
          "DESIGN.md section 4 C11"),
+
+ "C13": ("TLA+ spec Xmp (token reader with look-ahead windows growing in fixed steps up to the 1538-byte buffer: ReadAttrValue/GrowAttr, ReadTagValue/GrowValue, BufferFull; Exact/FormEq/GrowBound/Terminates; the `edge` deviation violates Exact) model-checked by TLC; every emitted packet (property x form x quote x white space x boundary lengths; pairs; one property at EVERY value length in both forms; tokens beyond the guarantee) concretised with seeded values, arrays and junk prefixes and parsed by xmp.ParseXmp",
+         "For ~6.7k (quick) / ~12k (thorough) packets: every written simple property (tiff, exif, aux, xmp, xmpMM namespaces; strings, integers, rationals, dates in 3 layouts, UUID forms, exposure bias) is reported with exactly its value, nothing else is reported, array items keep document order, the attribute form equals the element form at every length 1..1030 (1..1600), and tokens longer than the guaranteed window give the value or an error, never a wrong value.",
+         "Trusted: the XMP writer (gen/xmp.go). White space is SP/LF runs between tokens only; namespace prefixes are the conventional ones; values hold no markup characters; crs/dc scalar properties and xmpMM:History structures are not generated.",
+         "DESIGN.md section 4 C13"),
 }
 NOT_APPLICABLE = {
  "C18": "Bit-for-bit equality of AVX and Go float32 DCT kernels and their error bound against the real DCT-II are IEEE-754 statements over 2^(32*64) inputs; TLA+/TLC has no floating point and the kernels have no state machine to specify (DESIGN.md section 5).",
